@@ -253,6 +253,12 @@ def gen_local(seed, tier):
                        "cant": [0.0, "Degree"]})
     windy_shot = len(w["shots"]) - 1
     windy = [wind_fps * math.cos(math.radians(wind_dir)), wind_fps * math.sin(math.radians(wind_dir))]
+    # a lob: almost vertical, slow, with the velocity limit switched off (the README's own configuration example uses
+    # cMinimumVelocity = 0): at the apex the projectile is nearly at rest
+    w["ammos"].append({"dm": 0, "mv": [gen.pick(rng, [80.0, 100.0, 150.0]), "FPS"]})
+    w["shots"].append({"weapon": 1, "ammo": len(w["ammos"]) - 1, "atmo": 0, "winds": None,
+                       "look": [gen.pick(rng, [89.9, 89.95, 89.0]), "Degree"], "relative": [0.0, "Degree"], "cant": [0.0, "Degree"]})
+    lob_shot = len(w["shots"]) - 1
     prog = []
     live = []
 
@@ -300,12 +306,21 @@ def gen_local(seed, tier):
                 prog.append({"op": "zero", "calc": cid, "shot": offzero_shot, "dist": [100.0, "Yard"], "cap0": True})
         else:
             c = gen.pick(rng, live)
-            k = gen.pick(rng, ["fire", "fire", "zero", "trace", "gravity", "windy"])
+            k = gen.pick(rng, ["fire", "fire", "zero", "trace", "gravity", "windy", "lob"])
             if k == "fire":
                 prog.append({"op": "fire", "calc": c, "shot": gen.pick(rng, shots), "range": simgen.gen_range(rng, 50, 300),
                              "step": [50.0, "Yard"]})
             elif k == "zero":
                 prog.append({"op": "zero", "calc": c, "shot": gen.pick(rng, shots), "dist": simgen.gen_range(rng, 50, 200)})
+            elif k == "lob":
+                # needs a calculator without a velocity limit: create one on the spot
+                w["calcs"].append({"config": {"cMinimumVelocity": 0.0, "cMaximumDrop": -30.0,
+                                              "max_calc_step_size_feet": gen.pick(rng, [0.5, 1.0, 2.0])}})
+                cid = len(w["calcs"]) - 1
+                prog.append({"op": "new_calc", "calc": cid})
+                live.append(cid)
+                prog.append({"op": "fire", "calc": cid, "shot": lob_shot, "range": [3.0, "Yard"], "step": [1000.0, "Yard"],
+                             "extra": True, "time_step": 1e-9, "trace": True, "lob": True})
             elif k == "windy":
                 prog.append({"op": "fire", "calc": c, "shot": windy_shot, "range": [gen.pick(rng, [20.0, 40.0]), "Yard"],
                              "step": [1000.0, "Yard"], "extra": True, "time_step": 1e-9, "trace": True, "wind": windy})
@@ -334,6 +349,8 @@ def check_local(spec, hist):
     res = hist["results"][0]
     model_g = 0.5
     calc_step = {}
+    want_g = {op["calc"]: abs((spec["world"]["calcs"][op["calc"]].get("config") or {}).get("cGravityConstant", -32.17405))
+              for op in prog if op["op"] == "new_calc"}
 
     def bad(inv, i, detail, **extra):
         viol.append({"sig": dict({"invariant": inv, "mode": "local"}, **extra), "detail": f"op {i}: {detail}",
@@ -390,8 +407,12 @@ def check_local(spec, hist):
                     dz = (float.fromhex(b[7]) - float.fromhex(a[7])) / 12.0 - wz * dt
                     worst = max(worst, math.sqrt(dx * dx + dy * dy + dz * dz))
                 if worst > mx * (1 + 1e-9):
+                    slow = min(float.fromhex(x[2]) * 3.2808399 for x in rows[1:-1])
                     bad("step.exceeds_configured_maximum", i, f"an integration step advanced the projectile {worst!r} ft, "
-                                                              f"the calculator's maximum step is {mx!r} ft")
+                                                              f"the calculator's maximum step is {mx!r} ft (slowest point of the "
+                                                              f"trace: {slow!r} fps)",
+                        # "near rest": slower than the speed gravity imparts over one maximum step from rest
+                        near_rest=bool(slow < math.sqrt(2 * abs(want_g.get(op["calc"], 32.17405)) * mx)))
     # limits, iteration cap and accuracy honoured (the full truthfulness analysis of aborts is C04's, of caps C02's; here
     # only: the calculator's OWN settings - not another calculator's, not the defaults - are the ones that act)
     full = {}
@@ -564,8 +585,9 @@ def gen_toml(rng, decoy=False):
                 q = '"' if q == "'" else "'"
             lines.append(f"{slot} = {q}{val}{q}" + ("   # c" if rng.random() < 0.1 else ""))
             assign[slot] = val
-        if rng.random() < 0.15:
-            lines.append("nonsense_slot = 'Meter'")
+        if rng.random() < 0.2:
+            # keys that are not slots - some of them names of attributes the settings class happens to have
+            lines.append(f"{gen.pick(rng, ['nonsense_slot', 'defaults', 'set', '__doc__', 'mro'])} = 'Meter'")
         lines.append("")
     step = None
     if rng.random() < 0.7:
@@ -786,6 +808,13 @@ def _one_load(spec, load, pkgdir):
     def bad(inv, detail):
         viol.append({"sig": dict({"invariant": inv, "mode": "file"}, **tag), "detail": detail})
 
+    # invariant: a key that is not a slot must not clobber the class (PreferredUnits.defaults / .set stay methods)
+    import inspect
+    for meth in ("defaults", "set"):
+        if not inspect.ismethod(getattr(pb.PreferredUnits, meth, None)):
+            bad("file.non_slot_key_clobbered_attribute", f"after loading, PreferredUnits.{meth} is {_r(getattr(pb.PreferredUnits, meth, None))}, "
+                                                         f"no longer the classmethod")
+            setattr(pb.PreferredUnits, meth, _PRISTINE_METHODS[meth])       # so that the run can go on
     # invariant: every slot holds a Unit
     for s, v in post_slots.items():
         if not isinstance(v, pb.Unit):
@@ -827,7 +856,12 @@ def _one_load(spec, load, pkgdir):
     return viol, info
 
 
+_PRISTINE_METHODS = {}
+
+
 def _file_child(spec, only_load=None):
+    for meth in ("defaults", "set"):
+        _PRISTINE_METHODS[meth] = lib.pb.PreferredUnits.__dict__[meth]      # the classmethod objects themselves
     lib.reset_globals()
     pkgdir = lib.LIBDIR.rstrip("/")
     viol, infos = [], []
